@@ -230,6 +230,9 @@ func VerifH_C10_fmp4() {
 	for s := 0; s < nseg; s++ {
 		var parts []*fmp4.Part
 		nfrag := 1 + verifChoice("nfrags", verifParam("MAXFRAGS", 2))
+		if f := verifParam("FIXFRAGS", 0); f != 0 {
+			nfrag = f // a segment split into many fragments (chunked CMAF)
+		}
 		segFirst := int64(baseV) - origin
 		for f := 0; f < nfrag; f++ {
 			p := &fmp4.Part{SequenceNumber: seq}
@@ -239,7 +242,11 @@ func VerifH_C10_fmp4() {
 			cur := int64(baseV)
 			for k := 0; k < ns; k++ {
 				dur := uint32(verifRangeI64("vdur", 0, int64(1)<<uint(verifParam("VDURBITS", 20))))
-				off := int32(verifRangeI64("vptsoff", -(1 << 16), 1<<16))
+				offMax := int64(1) << uint(verifParam("PTSOFFBITS", 16))
+				if verifParam("PTSOFFBITS", 16) == 0 {
+					offMax = 0
+				}
+				off := int32(verifRangeI64("vptsoff", -offMax, offMax))
 				pl, unit := verifVideoSample(vc, tag)
 				vt.Samples = append(vt.Samples, &fmp4.PartSample{Duration: dur, PTSOffset: off, Payload: pl, IsNonSyncSample: k > 0})
 				want = append(want, exp{track: 0, dts: cur - origin, pts: cur - origin + int64(off), payload: unit, seg: s, segFirst: segFirst})
